@@ -312,6 +312,9 @@ func (o *Opts) Matrix() *Node {
 			adjs.Seq = append(adjs.Seq, a)
 		}
 		m.Set("adjustments", adjs)
+	} else if t.Draw(3, "matrix:empty-adj") == 2 {
+		// an explicit empty list: empty-but-non-nil after parsing
+		m.Set("adjustments", &Node{Kind: KSeq, Seq: []*Node{}})
 	}
 	if t.Draw(3, "matrix:extra") == 2 {
 		m.Set("x_"+o.str("matrix.xkey"), o.AnyValue("matrix.x", 2))
